@@ -43,13 +43,19 @@ fn chans_strategy(max: usize) -> impl Strategy<Value = Vec<ChanSpec>> {
             prop_oneof![2 => Just(None), 1 => Just(Some(Side::A)), 1 => Just(Some(Side::B))],
             label_strategy(),
             label_strategy(),
+            // negotiated channels only: created on a live association (both sides, independent delays)
+            prop_oneof![5 => Just(None), 1 => (0..40u16, 0..40u16).prop_map(Some), 1 => (0..3u16, 0..3u16).prop_map(Some)],
         ),
         1..=max,
     )
     .prop_map(|v| {
+        // a late channel needs a channel that exists from the start (its Open tells the application the association is up)
+        let has_early = |v: &Vec<(bool, Rel, Option<Side>, String, String, Option<(u16, u16)>)>| v.iter().any(|c| c.5.is_none() || c.2.is_some());
+        let all_late = !has_early(&v);
         v.into_iter()
             .enumerate()
-            .map(|(i, (ordered, rel, inband_by, label, protocol))| {
+            .map(|(i, (ordered, rel, inband_by, label, protocol, late))| {
+                let late_ms = if inband_by.is_some() || (all_late && i == 0) { None } else { late };
                 // ids: negotiated >= 100; in-band: even for A, odd for B (as the PeerConnection layer does by DTLS role)
                 let id = match inband_by {
                     None => 100 + i as u16,
@@ -63,6 +69,7 @@ fn chans_strategy(max: usize) -> impl Strategy<Value = Vec<ChanSpec>> {
                     inband_by,
                     label,
                     protocol,
+                    late_ms,
                 }
             })
             .collect()
@@ -155,7 +162,7 @@ pub fn judge(c: &Case, r: &RunResult, rec: &CaseRec) -> Check {
             "chan:{}-{}-{}",
             rel_name(ch.rel),
             if ch.ordered { "ordered" } else { "unordered" },
-            if ch.inband_by.is_some() { "inband" } else { "negotiated" }
+            if ch.inband_by.is_some() { "inband" } else if ch.late_ms.is_some() { "negotiated-late" } else { "negotiated" }
         ));
     }
     for (rule, f) in c.n.rules.iter().zip(&r.rules_fired) {
@@ -433,6 +440,7 @@ fn ssn_wrap_case(rel: Rel, ordered: bool, tsn: Option<u32>) -> Case {
                 inband_by: None,
                 label: "wrap".into(),
                 protocol: String::new(),
+                late_ms: None,
             }],
             sends,
         },
